@@ -164,6 +164,16 @@ def fault_cases(tier):
                         out.append({'base': base, 'method': meth, 'nfaults': 1, 'K': K1})
                         if K2:
                             out.append({'base': base, 'method': meth, 'nfaults': 2, 'K': K2})
+    # two precipitate phases: the calls of the phases interleave, the fall-back values are per phase
+    for system in ('bin', 'tern'):
+        for it in (['euler'] if quick else ['euler', 'rk4']):
+            for temp in (['iso'] if quick else ['iso', 'hrh']):
+                base = {'system': system, 'it': it, 'temp': temp, 'tf': 6.0, 'constraints': {'dtScale': 0.05},
+                        'preload': False, 'max_steps': 3000, 'nphases': 2}
+                for meth in FAULT_METHODS[system]:
+                    out.append({'base': base, 'method': meth, 'nfaults': 1, 'K': K1})
+                    if K2:
+                        out.append({'base': base, 'method': meth, 'nfaults': 2, 'K': K2})
     return out
 
 
